@@ -8,7 +8,7 @@ use crate::prng::Rng;
 use crate::scenario::*;
 use std::collections::HashMap;
 
-pub const FUEL: u64 = 400_000_000;
+pub const FUEL: u64 = 800_000_000;
 
 fn has_style_rules(c: &ConfigSpec) -> bool {
     c.do_decorate || c.use_doc_css || !c.css.is_empty() || matches!(c.decorator, Deco::Plain)
